@@ -24,8 +24,7 @@ CFG = {
 
 SMALL = {
     'templates': ['m2m', 'composite', 'mixed_cascade', 'o2m_req_nocascade', 'o2o_req'],
-    'length': {'quick': 3, 'thorough': 4},
-    'budget': {'quick': 12000, 'thorough': 400000},
+    'budget': {'quick': 9000, 'thorough': 500000},
     'monitors': CFG['monitors'],
 }
 
